@@ -104,8 +104,8 @@ CLAIMED = {
         "package-level state are not modelled.",
    note="Lean kernel + propext/Quot.sound; map order is quantified in the model, sampled on the implementation.", technique=T, design="§4 C12"),
  "C01": dict(
-   text="Partial. Lean proof of the print->parse round trip for three fragments: M-Core-3 (FUNCTION DEFINITIONS: any number of parameters and named / numbered blocks, 30 instruction and "
-        "terminator kinds — the integer binary and bitwise operations, icmp, load, store, select, ret, br, conditional br, unreachable — over local values incl. forward references "
+   text="Partial. Lean proof of the print->parse round trip for three fragments: M-Core-3 (FUNCTION DEFINITIONS: any number of parameters and named / numbered blocks, 45 instruction and "
+        "terminator kinds — the integer binary and bitwise operations, icmp, load, store, select, the 13 conversions, phi, freeze, ret, br, conditional br, unreachable — over local values incl. forward references "
         "and nested constants; generic row-table reader proved to invert the printer, translation = asm/local.go: numbering, duplicates, undefined uses, label kinds, operand "
         "retyping), M-Core (opaque type definitions + integer globals: all names, widths, values, both literal "
         "notations) and M-Core-2 (identified struct type definitions with bodies of arbitrarily nested types; global variables / constants of ANY type initialised by integers "
